@@ -153,8 +153,24 @@ TABLE = [
     ('strip_suffix(description, "zz")', 'Netflix.COM 0012 ab'), ('strip_suffix(description, "")', 'Netflix.COM 0012 ab'), ('strip_prefix(description, "")', 'Netflix.COM 0012 ab'), ('strip_suffix("", "")', ''), ('strip_prefix("ab", "abc")', 'ab'), ('strip_suffix("ab", "cab")', 'ab'), ('regex_replace(description, "\\\\d+", "#")', 'Netflix.COM # ab'), ('regex_replace(description, "netflix", "X")', 'X.COM 0012 ab'),
     ('regex_replace(field.pad, "\\\\s+", "")', 'x'), ('abs(0 - amount)', 15.5), ('round(amount)', 16), ('description.lower()', 'netflix.com 0012 ab'), ('description.upper()', 'NETFLIX.COM 0012 AB'),
     ('fuzzy("NETFLIX")', True), ('fuzzy("NETFLX")', True), ('fuzzy("ZZZZZZZZ")', False), ('big', True), ('true', True), ('false', False), ('lim', 10),
+    ('(TOTALQ := 5) and totalq == 5', True), ('(q := len(orders)) and Q == 3', True), ('len([lim.qty for lim in orders]) + lim', 13), ('any(lim.qty > 1 for lim in orders) and lim == 10', True), ('all(lim.qty > 1 for lim in orders) or lim == 10', True),
+    ('next(lim.qty for lim in orders) == 2 and lim == 10', True), ('next((o.qty for o in orders for lim in refunds if lim.id == "78"), 0) == 2 and lim == 10', True), ('[big.qty for big in orders]', [2, 1, 5]),
+    ('[R.qty for r in orders]', [2, 1, 5]), ('len([label for label in orders]) == 3 and label == "net"', True),
     ('[r.item for r in orders if r.item == "CABLE"]', ['Cable', 'cable']), ('any(r.item == "MOUSE" for r in orders)', True), ('"cable" in [r.item for r in orders]', True),
 ]
+
+
+MUST_FAIL = ['len([r for r in orders]) > 0 and r', 'any(r.qty > 1 for r in orders) and r.qty > 1', '[r for r in orders if r.qty > 9] == [] and r', 'sum(r.qty for r in orders) > 0 and r',
+             '[o.id for o in orders for r in refunds] and o', '[o.id for o in orders for r in refunds if r.id == "zz"] == [] and r', 'nosuch', 'field.nosuch', 'txn.nosuch']
+
+
+def scope_suite():
+    """loop variables do not outlive their comprehension (whether or not an item passed the conditions); unknown names are expression errors"""
+    for expr in MUST_FAIL:
+        O.case(('must_fail', expr))
+        got = tally_eval(expr)
+        if got[0] != 'err':
+            O.fail('C04.scope.name_resolves_outside_its_scope', {'expr': expr}, 'ExpressionError (unknown variable)', got)
 
 
 def table_suite():
@@ -293,6 +309,8 @@ def main():
                 O.fail('C04.law.witness', w, a, b)
         elif 'filter' in w:
             filter_suite()
+        elif w['expr'] in MUST_FAIL:
+            scope_suite()
         else:
             check_diff(w['expr'])
             for expr, want in TABLE:
@@ -302,6 +320,7 @@ def main():
     table_suite()
     diff_suite()
     bool_suite()
+    scope_suite()
     filter_suite()
     laws_suite()
     table_suite()
